@@ -476,6 +476,7 @@ func (mr *msgReader) Read(p []byte) (n int, err error) {
 			}
 		}
 		mr.putFlateReader()
+		mr.c.vEv("MrEnd", int64(n), 0, 0, 0)
 		return n, io.EOF
 	}
 	if err != nil {
